@@ -29,8 +29,9 @@ RULE = (
     "annotated fields with plain / field(default|default_factory|init|kw_only|repr) values, InitVar, ClassVar (subscripted and bare), "
     "KW_ONLY marker, un-annotated attributes, properties, methods, hand-written __init__; decorator forms @dataclass / @dataclass() / "
     "@dataclass(init=, kw_only=, other flag); 4 import forms; PEP 563 on/off; names from a pool of 5 so that overrides are common. "
-    "Two cases in eight spread the classes over a package (__init__, m1, m2; imports package->submodule, submodule->package, "
-    "submodule->sibling, relative or absolute; never cyclic). One case in eight is a diamond of four dataclasses (C0 <- C1, C0 <- C2, C3(C2, C1)); two in eight are a history: two variants of a same-named module loaded one after the other (separate loaders and collections) "
+    "Two cases in ten split the hierarchy over two top-level packages loaded one after the other (base package first) into one "
+    "GriffeLoader, with InitVar fields in the base package. Two cases in ten spread the classes over a package (__init__, m1, m2; imports package->submodule, submodule->package, "
+    "submodule->sibling, relative or absolute; never cyclic). One case in ten is a diamond of four dataclasses (C0 <- C1, C0 <- C2, C3(C2, C1)); two in ten are a history: two variants of a same-named module loaded one after the other (separate loaders and collections) "
     "through ONE griffe.load_extensions() result, each judged against CPython. "
     "Only modules CPython accepts are evaluated. non-trivial = a dataclass at depth >=2 overriding an inherited field, or keyword-only "
     "interplay (flag / marker / field(kw_only)) in a dataclass with >=2 constructor fields; distinct = distinct module source"
@@ -42,6 +43,9 @@ ASSUMPTIONS = [
     "a class whose resolved __init__ is object.__init__ (e.g. @dataclass(init=False) without any inherited constructor) may present "
     "either no __init__ or the empty synthesised `__init__(self)`",
     "member names are unique inside one class body (re-binding inside a body is C01's subject); frozen=True is not generated",
+    "two-package histories load the base package before the package that subclasses it (the order in which a dependency is "
+    "available when the dependent package's on_package_loaded fires); the reverse order is not generated: on the unchanged tree a "
+    "dataclass processed before its parent package is loaded has no access to the parent's fields (observed, noted in findings/C18.md)",
     "the generated module is a single file loaded with griffe.load(name, search_paths=[dir], allow_inspection=False)",
 ]
 BUDGET_S = {"quick": 85.0, "thorough": 1500.0}
@@ -131,6 +135,8 @@ def evaluate(case: dict, workdir: Path) -> tuple[list[Fail], str | None]:
             return evaluate_module(case, d, name, None, 0)
         if case.get("kind") == "dcpkg":
             return evaluate_package(case, d, name)
+        if case.get("kind") == "dc2pkg":
+            return evaluate_two_packages(case, d, name)
         extensions = call("total", griffe.load_extensions, what="griffe.load_extensions()")
         fails: list[Fail] = []
         for k, sub in enumerate((case["first"], case["second"]), 1):
@@ -277,6 +283,42 @@ def evaluate_package(case: dict, d: Path, pkg: str) -> tuple[list[Fail], str | N
             del sys.path_importer_cache[key]
 
 
+def evaluate_two_packages(case: dict, d: Path, name: str) -> tuple[list[Fail], str | None]:
+    """The hierarchy split over two top-level modules, loaded one after the other (base package first) into ONE GriffeLoader;
+    CPython imports both; every class of both packages is judged after the second load."""
+    import importlib
+
+    import griffe
+
+    name_a, name_b = name + "a", name + "b"
+    sources = G.render_two_packages(case, name_a, name_b)
+    code = "\n".join(f"# ---- {m}.py\n{src}" for m, src in sources.items())
+    d.mkdir(parents=True, exist_ok=True)
+    for m, src in sources.items():
+        (d / f"{m}.py").write_text(src)
+    sys.path.insert(0, str(d))
+    try:
+        importlib.invalidate_caches()
+        try:
+            pymods = [importlib.import_module(name_a), importlib.import_module(name_b)]
+        except (TypeError, ValueError, AttributeError) as exc:
+            return [], f"{type(exc).__name__}: {exc}"
+        except Exception as exc:  # noqa: BLE001
+            raise HarnessError(f"generated packages fail in CPython with {exc!r}\n{code}") from exc
+        loader = call("total", griffe.GriffeLoader, search_paths=[str(d)], allow_inspection=False, what="GriffeLoader()")
+        gmods = [call("total", loader.load, n, what=f"loader.load({n})") for n in (name_a, name_b)]
+        fails = judge(case["dc"], lambda i: pymods[case["side"][i]], lambda i: gmods[case["side"][i]], code)
+        for f in fails:
+            f.kind += "@two-packages-one-loader"
+        return fails, None
+    finally:
+        sys.path.remove(str(d))
+        for n in (name_a, name_b):
+            sys.modules.pop(n, None)
+        for key in [k for k in sys.path_importer_cache if k.startswith(str(d))]:
+            del sys.path_importer_cache[key]
+
+
 def classify(want, got, py_own: bool) -> str:
     """Coarse, root-cause oriented mismatch kind."""
     wn, gn = [p[0] for p in want], [p[0] for p in got]
@@ -297,7 +339,7 @@ def check_case(case) -> list[Fail]:
 
 
 def check_case_ex(case) -> tuple[list[Fail], str | None]:
-    if case.get("kind") not in ("dc", "dc2", "dcpkg"):
+    if case.get("kind") not in ("dc", "dc2", "dcpkg", "dc2pkg"):
         raise HarnessError(f"unknown case kind {case.get('kind')!r}")
     if _TMP_BASE is not None:
         return evaluate(case, _TMP_BASE)
@@ -325,7 +367,7 @@ def _is_inherited_class_attribute_default(case, fail: Fail) -> bool:
         return False
     if case.get("kind") == "dc2":
         case = case["first"] if fail.detail.get("load") == 1 else case["second"]
-    elif case.get("kind") == "dcpkg":
+    elif case.get("kind") in ("dcpkg", "dc2pkg"):
         case = case["dc"]
     classes = case["classes"]
     # the class whose constructor is presented, or the ancestor it is inherited from: any decorated class of the module
@@ -344,7 +386,8 @@ def _cases(ctx):
     two = st.builds(lambda a, b: {"kind": "dc2", "first": a, "second": b}, small, small)
     diamond = G.diamond_cases(avoid_inherited_value=SLUG_INHERITED in ctx.known)
     package = G.package_cases(avoid_inherited_value=SLUG_INHERITED in ctx.known)
-    return st.one_of(one, one, one, two, two, diamond, package, package)
+    two_packages = G.two_package_cases(avoid_inherited_value=SLUG_INHERITED in ctx.known)
+    return st.one_of(one, one, one, two, two, diamond, package, package, two_packages, two_packages)
 
 
 def strategy(ctx):
@@ -375,6 +418,22 @@ def run_shard(ctx) -> None:
             codes = [G.render(case["first"]), G.render(case["second"])]
             labels = sorted(set(l1) | set(l2)) + ["history:two-loads-one-extensions-object"]
             return (codes if (nt1 or nt2) else None), ["accepted", *labels], {"first load": codes[0], "second load": codes[1]}
+        if case["kind"] == "dc2pkg":
+            if case["dc"].get("steered"):
+                ctx.excluded(SLUG_INHERITED, case["dc"]["steered"])
+            nt, labels = G.stats(case["dc"])
+            labels = [*labels, "two-packages:one-loader"]
+            dc = case["dc"]
+            for i, cls in enumerate(dc["classes"]):
+                if case["side"][i] == 1 and cls["deco"] is not None:
+                    for b in cls["bases"]:
+                        if case["side"][b] == 0 and dc["classes"][b]["deco"] is not None:
+                            labels.append("two-packages:dataclass-subclass-across-packages")
+                            nt = True
+                            if any(it["t"] == "iv" for it in dc["classes"][b]["body"]):
+                                labels.append("two-packages:base-with-InitVar-in-first-package")
+            sources = G.render_two_packages(case, "pkga", "pkgb")
+            return (sources if nt else None), ["accepted", *sorted(set(labels))], {"packages": sources}
         if case["kind"] == "dcpkg":
             if case["dc"].get("steered"):
                 ctx.excluded(SLUG_INHERITED, case["dc"]["steered"])
